@@ -193,7 +193,16 @@ fn apply<T: Elem>(t: &mut TooDee<T>, op: &Op, ret: &mut Vec<u64>) {
             3 => if t.data().is_empty() { *t = TooDee::with_capacity(u(n)) },
             _ => t.shrink_to_fit(),
         },
-        Op::SetCell(c, r, v) => { t[(u(c), u(r))] = T::mk(*v); }
+        Op::SetCell(c, r, v) => {
+            // in range: the same cell through IndexMut, data_mut() or AsMut<[T]> (row-major address)
+            let (nc, nr) = t.size();
+            let inside = u(c) < nc && u(r) < nr;
+            match (inside, *v % 3) {
+                (true, 1) => { let s: &mut [T] = t.as_mut(); s[u(r) * nc + u(c)] = T::mk(*v); }
+                (true, 2) => { t.data_mut()[u(r) * nc + u(c)] = T::mk(*v); }
+                _ => { t[(u(c), u(r))] = T::mk(*v); }
+            }
+        }
         Op::Fill(v) => t.fill(T::mk(*v)),
         Op::CloneArr => {
             let t2 = t.clone();
